@@ -619,6 +619,13 @@ func ruleG1(c *Ctx, only string, floor int) {
 							continue
 						}
 					}
+					// &X[i] evaluated at the go statement, i the variable of the loop that spawns: a different slot per goroutine
+					if aac.firstIdx != nil {
+						if cl := loopOf(countedLoops(s.parent), s.at.Block()); cl != nil && cl.step != 0 && core.StripConv(aac.firstIdx) == cl.phi {
+							facts = append(facts, fmt.Sprintf("slot %s[i] of the spawn loop's own variable, handed over as an argument", aac.root))
+							continue
+						}
+					}
 					bad = true
 					c.Bad("G1", key, w.at.Pos(), fmt.Sprintf("goroutine writes through its parameter %s (%s at %s), whose actual argument is shared state not indexed by a per-goroutine value", p.Name(), w.how, c.P.Pos(w.at.Pos())))
 					continue
